@@ -16,7 +16,7 @@ import (
 	"sync"
 )
 
-const FileHeader = "package sample\n\nimport (\n\t\"math/bits\"\n\t\"unicode/utf8\"\n)\n\nvar _ = bits.Len\nvar _ = utf8.ValidString\n"
+const FileHeader = "package sample\n\nimport (\n\t\"math/bits\"\n\t\"unicode/utf16\"\n\t\"unicode/utf8\"\n)\n\nvar _ = bits.Len\nvar _ = utf8.ValidString\nvar _ = utf16.IsSurrogate\n"
 
 // RenderFile assembles an analysable Go file from function sources.
 func RenderFile(funcs []string) string {
@@ -235,7 +235,7 @@ func InputAt(idx int) string {
 func RunNative(dir string, funcs []NativeFunc) (map[string]Obs, error) {
 	os.MkdirAll(dir, 0o755)
 	var sb strings.Builder
-	sb.WriteString("package main\n\nimport (\n\t\"bufio\"\n\t\"crypto/sha256\"\n\t\"encoding/hex\"\n\t\"fmt\"\n\t\"math/bits\"\n\t\"os\"\n\t\"strings\"\n\t\"unicode/utf8\"\n)\n\nvar _ = bits.Len\nvar _ = utf8.ValidString\n")
+	sb.WriteString("package main\n\nimport (\n\t\"bufio\"\n\t\"crypto/sha256\"\n\t\"encoding/hex\"\n\t\"fmt\"\n\t\"math/bits\"\n\t\"os\"\n\t\"strings\"\n\t\"unicode/utf16\"\n\t\"unicode/utf8\"\n)\n\nvar _ = bits.Len\nvar _ = utf8.ValidString\nvar _ = utf16.IsSurrogate\n")
 	sb.WriteString(Prelude)
 	var tab strings.Builder
 	tab.WriteString("var table = []struct {\n\tid string\n\tf  fn\n}{\n")
